@@ -1,6 +1,6 @@
 import A2Verif.Lemmas.FsProdosPutL
 /-!
-# `put(fimg)` into the volume directory refines the abstract `put` (files of at most 256 chunk positions)
+# `put(fimg)` into the volume directory refines the abstract `put`
 
 `PutArgs`: what is asked of the arguments beyond what `put` itself checks.  `put_refines'`: every outcome — refused before
 anything is read (wrong file system, chunk length, no chunks, field lengths, limits), refused by `prepare_to_write` (name
@@ -74,7 +74,7 @@ theorem PutArgs.toOk {f : FImg} {time : Bytes} (pa : PutArgs f time) (h : EarlyO
   obtain ⟨h1, h2, h3, h4, h5⟩ := h
   have hal : 1 ≤ f.access.length := by omega
   have hacc : f.access[0]? = some (f.access[0]'(by omega)) := List.getElem?_eq_getElem (by omega)
-  exact ⟨h1, h2, pa.keys, fun hn => h3 (by rw [hn]; rfl), pa.clen, pa.cbytes, ⟨pa.eofpos, by omega⟩, ⟨by omega, pa.fsType⟩,
+  exact ⟨h1, h2, pa.keys, fun hn => h3 (by rw [hn]; rfl), pa.clen, pa.cbytes, ⟨pa.eofpos, by omega⟩, by omega, ⟨by omega, pa.fsType⟩,
     ⟨by omega, pa.aux.1, pa.aux.2⟩, ⟨by omega, pa.version⟩, ⟨by omega, pa.minVersion⟩,
     ⟨_, hacc, (pa.access _ hacc).1, (pa.access _ hacc).2⟩, pa.time⟩
 
@@ -116,8 +116,8 @@ theorem put_nofit {f : FImg} (time : Bytes) {d : Disk} {bm cnt : Nat} (st : St d
   rw [bind_ok _ _ _ _ _ hnum, if_pos hfit]
   rfl
 
-/-- **`put(fimg)` refines the abstract `put`** (file of the volume directory, at most 256 chunk positions) -/
-theorem put_refines' {d : Disk} (hs : SInv d) (f : FImg) (time nm : Bytes) (pa : PutArgs f time) (h256 : f.end_ ≤ 256)
+/-- **`put(fimg)` refines the abstract `put`** (file of the volume directory: seedling, sapling, tree, holes included) -/
+theorem put_refines' {d : Disk} (hs : SInv d) (f : FImg) (time nm : Bytes) (pa : PutArgs f time)
     (hnodes : normalizePath (volName (hdrOf d.raw)) f.fullPath = .ok [volName (hdrOf d.raw), nm]) (hnm : nm ≠ []) :
     Refines d (put f time repaired d)
       (.put (upper nm) f.chunks f.eof (f.fsType.getD 0 0) (f.aux.getD 0 0 + 256 * f.aux.getD 1 0)) := by
@@ -162,7 +162,7 @@ theorem put_refines' {d : Disk} (hs : SInv d) (f : FImg) (time nm : Bytes) (pa :
           unfold freeBlocks; rw [hvv, heff, hts]
         by_cases hfit : blocksNeeded f ≤ v.freeUnits.length
         · obtain ⟨d3, d4, v4, hput, hfl, hs4, hr4, hstep, hlab, _⟩ :=
-            put_ok hs v fsL ch hr ht f time nm pk h256 hnodes hnm hv hdup x hslot hfit
+            put_ok hs v fsL ch hr ht f time nm pk hnodes hnm hv hdup x hslot hfit
           rw [hput]
           exact ⟨d4, v, v4, hfl, hs4, hr, hr4, hstep, hlab⟩
         · rw [put_nofit time c.st hearly ht0 hcov _ hprep (by rw [← hfreeU]; omega)]
